@@ -1,4 +1,4 @@
-\* generator configuration for property C09: run with -simulate; prints schedules (generated by hand-off script)
+\* generator configuration for property C15: run with -simulate; prints schedules (generated by hand-off script)
 SPECIFICATION Spec
 CONSTANTS
   c1 = c1
@@ -8,16 +8,16 @@ CONSTANTS
   SlotNode <- Slot3
   Menu <- MenuGen
   MaxReq <- GMaxReq
-  AnswerKinds <- AKok
+  AnswerKinds <- AKgenRedir
   MaxMsg = 8
   TimeoutOn = FALSE
-  MaxBkClose = 0
+  MaxBkClose = 2
   AllowCliClose = FALSE
-  MaxHops = 0
+  MaxHops = 1
   MaxBurst = 3
   CanonKinds = TRUE
   PoolAny = FALSE
   MaxPause = 0
-  MaxDown = 0
+  MaxDown = 1
 INVARIANTS PrintViol NoViolation PrintSched
 CHECK_DEADLOCK FALSE
